@@ -214,7 +214,8 @@ Apply ==
   /\ cst' = CASE E.e = "ClientCall" /\ E.call = "submit" -> [cst EXCEPT ![E.cid].s = "running"]
               \* cancel takes effect when it is ISSUED (a result already in flight may or may not arrive - both accepted above
               \* only if it arrives before the call; afterwards it must not)
-              [] E.e = "ClientCall" /\ E.call = "cancel" /\ E.cid \in Comps /\ T.cowner[E.cid] = E.c -> [cst EXCEPT ![E.cid].s = "cancelled"]
+              [] E.e = "ClientCall" /\ E.call = "cancel" /\ E.cid \in Comps /\ T.cowner[E.cid] = E.c /\ ~cst[E.cid].delivered
+                   -> [cst EXCEPT ![E.cid].s = "cancelled"]      \* (cancelling a compilation whose result was already delivered changes nothing)
               [] E.e = "ClientReturn" /\ E.call = "result" /\ E.kind = "result" /\ E.cid \in Comps -> [cst EXCEPT ![E.cid].delivered = TRUE]
               [] E.e = "ClientReturn" /\ E.kind = "error" ->
                    \* the client's connection is gone: its unfinished compilations are orphaned (= cancelled work)
